@@ -71,4 +71,44 @@ PROPS = {
             "lax.single_agree": 1000,
         },
     },
+    "C04": {
+        "level": "exploration",
+        "rule": "cases = generated packets (clean, hostile, truncation sweeps, IPv6 chains with repeated extension headers, all 65536 "
+                "ether types) decoded by PacketHeaders and SlicedPacket (and LaxPacketHeaders / LaxSlicedPacket) from the same bytes; "
+                "headers, stop errors, verdict and remaining payload range compared; where the reference decoder's struct-mode and "
+                "slice-mode walks of the extension chain differ the struct result is judged against the struct-mode walk (computed "
+                "permitted difference); distinct = distinct (entry point, layer sequence, outcome, payload kind)",
+        "assumptions": COMMON_ASSUME + [
+            "the conversion image of a slicing result (observe::whole::to_header_image) mirrors what to_header() keeps: all "
+            "decoded field values, none of the byte offsets",
+            "reference decoder walks (slice mode / struct mode) decide whether the permitted difference applies",
+        ],
+        "runs": {"quick": [dict(CHK)], "thorough": [dict(CHK)]},
+        "mandatory": {
+            "same": 10000, "same.udp": 500, "same.tcp": 500, "same.icmpv4": 200, "same.icmpv6": 200, "same.ip": 500,
+            "same.ether": 500, "same.macsec_mod": 100, "same.empty": 100, "both_reject": 1000, "same_stop": 1000,
+            "permitted_difference_ok": 500,
+        },
+    },
+    "C06": {
+        "level": "exploration",
+        "rule": "cases = generated packets / headers through pairs of equivalent entry points: (a) the 12 IP boundary implementations "
+                "(grouped by strict/lax, struct siblings compared among themselves when the extension chain does not fit the struct), "
+                "(b) from_ethernet vs from_ether_type on the bytes behind the Ethernet II header (offsets +14) and (c) from_ether_type"
+                "(IPv4/IPv6) vs from_ip in all 4 decoder families, (d) read() from a Cursor vs from_slice() for 24 reader entry points "
+                "of 17 header types incl. cursor position; errors compared after projecting sibling layer names; equality demanded only "
+                "for single-fault inputs; distinct = distinct (rule, entry point, outcome signature)",
+        "assumptions": COMMON_ASSUME + [
+            "a too short slice corresponds to io::ErrorKind::UnexpectedEof of a reader",
+            "rules that depend on the total slice length (ICMPv4 timestamp exact size, IP total length vs slice) are excluded when only the slice decoder can know them",
+        ],
+        "runs": {"quick": [dict(CHK)], "thorough": [dict(CHK)]},
+        "abnormal_owner": "C06",
+        "mandatory": {
+            "eth_vs_ether_type.same": 10000, "eth_vs_ether_type.same_error": 1000, "ether_type_vs_ip.same": 10000,
+            "ether_type_vs_ip.same_error": 1000, "ip_siblings.same": 10000, "ip_siblings.same_error": 1000,
+            "read_vs_slice.same_value": 10000, "read_vs_slice.rejection.Len": 1000, "read_vs_slice.rejection.Content": 500,
+            "entry.*::read": 24000,
+        },
+    },
 }
